@@ -14,7 +14,9 @@ from .. import common
 NAMES = ['n', 'm.x-1']
 VALUES = ['vh-argv -x', 'vh-argv "a b"', "vh-argv 'q'", 'n -y', 'm.x-1 z', 'vh-argv a | vh-argv2']
 USES = [('{} r', 'head'), ('vh-argv a | {} r', 'after-pipe'), ('vh-mark 1 0 ; {} r', 'after-semicolon'),
-        ('vh-mark 1 0 && {} r', 'after-and'), ('vh-argv {} r', 'non-first-word')]
+        ('vh-mark 1 0 && {} r', 'after-and'), ('vh-argv {} r', 'non-first-word'),
+        # arguments that are themselves alias names (after an aliased and after a plain command word)
+        ('{} n m.x-1', 'head-with-alias-named-arguments'), ('vh-argv a | {} m.x-1 n', 'after-pipe-with-alias-named-arguments')]
 
 
 def define(name, value, q):
@@ -78,7 +80,7 @@ def run_transition(job):
                 if pos == 'non-first-word' or value is None:
                     ref_line = use
                 else:
-                    ref_line = tmpl.format(value)
+                    ref_line = tmpl.replace('{}', value, 1) if tmpl.count('{}') == 1 else tmpl.format(value)
                 results[(name, pos)] = (recs_of(r), r.timed_out, reference_use(ref_line), use, ref_line)
         # listing, single listing, round trip
         try:
